@@ -194,6 +194,8 @@ def generate(src):
                 setG(s2, replaced=If(inr, Store(s2.ghost['replaced'], slot, True), s2.ghost['replaced'])); return k(s2, None)
             return inline(ex, s, R1['handle'], recv, [], {'workers': PyList(wl_a), 'args': fresh('wargs'), 'worker_func': fresh('wf')}, after, K, {'__slot': slot})
         def all_(s):
+            oblige(s, "start/reload-all: the reload covers every worker slot (workers_num == number of slots), so every worker is restarted in the tick the request is handled  [C18]",
+                   ex.as_int(kw['workers_num']) == s.heap.llen[wl_a])
             return inline(ex, s, RA['handle'], recv, [], {'workers_num': kw['workers_num'], 'action_queue': PyObj(Int('queue_addr'))}, k, K)
         ex.branch(st, kind == RONE, one, all_)
     def h_wait_startup(ex, st, e, recv, args, kw, k, K): return k(st, None)     # only calls is_alive()/event.wait: may reap the new process; irrelevant here
